@@ -1004,6 +1004,105 @@ func readdCase(k int) rt.Result {
 	return w.result("readd", true, map[string]int{"real_readd": 1})
 }
 
+// closeCloseCase: a second Close (or a DeletePeer) issued while a first Close is
+// still tearing sessions down (OnClose is busy) must not return before the
+// teardown is complete (C10: "by the time they return ...").
+func closeCloseCase(k int, second string) rt.Result {
+	w, err := newWorld("127.0.0.1:0")
+	if err != nil {
+		return rt.Result{Verdict: "inconclusive", Why: err.Error()}
+	}
+	gate := make(chan struct{})
+	var mu sync.Mutex
+	est, closed := 0, 0
+	pl := &fnPlugin{
+		onEst:    func() { mu.Lock(); est++; mu.Unlock() },
+		onUpdate: func() {},
+		onClose: func() {
+			<-gate // teardown is slow
+			mu.Lock()
+			closed++
+			mu.Unlock()
+		},
+	}
+	ips := []string{fmt.Sprintf("127.0.12.%d", 10+k%100), fmt.Sprintf("127.0.13.%d", 10+k%100)}
+	var rcs []*rconn
+	for _, ip := range ips {
+		w.srv.AddPeer(corebgp.PeerConfig{RemoteAddress: netip.MustParseAddr(ip), LocalAS: lAS, RemoteAS: rAS}, pl, corebgp.WithPassive())
+	}
+	w.serve()
+	for _, ip := range ips {
+		c, err := dialFrom(ip, fmt.Sprintf("127.0.0.1:%d", w.port()))
+		if err != nil {
+			w.inconclusive("dial: %v", err)
+			close(gate)
+			w.close()
+			return w.result("", false, nil)
+		}
+		rc := newRconn(c)
+		rcs = append(rcs, rc)
+		if !rc.handshake(0x0a000101, 90) {
+			w.inconclusive("handshake")
+			close(gate)
+			w.close()
+			return w.result("", false, nil)
+		}
+	}
+	deadline := time.Now().Add(5 * time.Second)
+	for {
+		mu.Lock()
+		e := est
+		mu.Unlock()
+		if e == 2 || time.Now().After(deadline) {
+			break
+		}
+		time.Sleep(5 * time.Millisecond)
+	}
+	firstDone, secondDone := make(chan struct{}), make(chan struct{})
+	go func() { w.srv.Close(); close(firstDone) }()
+	time.Sleep(100 * time.Millisecond) // the first Close is now waiting for a busy OnClose
+	go func() {
+		if second == "Close" {
+			w.srv.Close()
+		} else {
+			w.srv.DeletePeer(netip.MustParseAddr(ips[1]))
+		}
+		close(secondDone)
+	}()
+	select {
+	case <-secondDone:
+		mu.Lock()
+		c := closed
+		mu.Unlock()
+		open := 0
+		for _, rc := range rcs {
+			if _, eof, _ := rc.snapshot(); !eof {
+				open++
+			}
+		}
+		if c < 2 {
+			w.violate("a %s issued while an earlier Close was still tearing down returned although only %d of 2 OnClose callbacks had been delivered and %d connection(s) were still open", second, c, open)
+		}
+	case <-time.After(400 * time.Millisecond):
+		// still blocked, as it must be while OnClose is busy
+	}
+	close(gate)
+	for _, ch := range []chan struct{}{firstDone, secondDone} {
+		select {
+		case <-ch:
+		case <-time.After(10 * time.Second):
+			w.violate("Close/DeletePeer did not return within 10 s after OnClose was released")
+		}
+	}
+	select {
+	case <-w.serveErr:
+	case <-time.After(5 * time.Second):
+		w.violate("Serve did not return")
+	}
+	w.lis.Close()
+	return w.result("closeclose-"+second, true, map[string]int{"real_overlapping_stops": 1})
+}
+
 type fnPlugin struct {
 	onEst, onUpdate, onClose func()
 }
@@ -1220,6 +1319,10 @@ func TestRealAdmission(t *testing.T) {
 
 func TestRealShutdown(t *testing.T) {
 	c := rt.Get()
+	for i := 0; i < c.N(4, 40); i++ {
+		second := []string{"Close", "DeletePeer"}[i%2]
+		runCase(t, "real-overlapping-stops", i, map[string]any{"second_call": second}, func() rt.Result { return closeCloseCase(i, second) })
+	}
 	n := c.N(40, 600)
 	for i := 0; i < n; i++ {
 		d := time.Duration(i%40) * 500 * time.Microsecond
